@@ -15,7 +15,9 @@ package participle
 // sameStream: two contexts look at the same token stream and elision set.
 //@ pred sameStream(a *parseContext, b *parseContext) = a.tokens == b.tokens && a.elide == b.elide
 // applyPrefix: the deferred-capture list of c now extends the list it had in the old state.
-//@ pred applyKept(c *parseContext, n int) = len(c.apply) >= n
+// errOK: an error the parser may hand out: nil, a participle.Error, or one produced by user code
+// (Parseable / Capture / custom productions), which C06 exempts.
+//@ pred errOK(e error) = e == nil || implements(e, Error) || uf("user_error", "Bool", e)
 
 //@ func newParseContext [C13 C15]
 //@   requires lex != nil
@@ -36,6 +38,7 @@ package participle
 
 //@ func (*parseContext).Accept [C02 C01 C13]
 //@   requires branch != nil && p != branch
+//@   ensures errOK(old(p.deepestError)) && errOK(branch.deepestError) ==> errOK(p.deepestError) [C06]
 //@   modifies p.apply, p.PeekingLexer, p.deepestError, p.deepestErrorDepth
 //@   ensures len(p.apply) == len(old(p.apply)) + len(branch.apply) && (p.apply == old(p.apply) || fresh(p.apply))
 //@   ensures forall(k, 0, len(old(p.apply)), p.apply[k] == old(p.apply[k]))
@@ -46,12 +49,14 @@ package participle
 
 //@ func (*parseContext).MaybeUpdateError [C06 C13]
 //@   modifies p.deepestError, p.deepestErrorDepth
+//@   ensures errOK(old(p.deepestError)) && errOK(err) ==> errOK(p.deepestError)
 //@   ensures p.deepestErrorDepth == max(old(p.deepestErrorDepth), p.cursor)
 //@   ensures p.cursor >= old(p.deepestErrorDepth) ==> p.deepestError == err
 //@   ensures p.cursor < old(p.deepestErrorDepth) ==> p.deepestError == old(p.deepestError)
 
 //@ func (*parseContext).DeepestError [C06]
 //@   pure
+//@   ensures errOK(p.deepestError) && errOK(err) ==> errOK(result)
 //@   ensures p.cursor >= p.deepestErrorDepth ==> result == err
 //@   ensures p.cursor < p.deepestErrorDepth && p.deepestError != nil ==> result == p.deepestError
 //@   ensures p.cursor < p.deepestErrorDepth && p.deepestError == nil ==> result == err
@@ -78,6 +83,7 @@ package participle
 //@   ensures !result ==> p.PeekingLexer == old(p.PeekingLexer) && p.apply == old(p.apply)
 //@   ensures branch.apply == old(branch.apply) && branch.PeekingLexer == old(branch.PeekingLexer)
 //@   ensures p.deepestErrorDepth >= old(p.deepestErrorDepth)
+//@   ensures errOK(old(p.deepestError)) && errOK(branch.deepestError) && errOK(err) ==> errOK(p.deepestError) [C06]
 
 // ---------------------------------------------------------------------------------------------
 // nodes.go
@@ -130,7 +136,7 @@ package participle
 //   - a non-nil error is a participle.Error unless it comes from user code                [C06]
 //@ interface node.Parse
 //@   params self, ctx, parent
-//@   requires ctx != nil && pcInv(ctx) && wf(self)
+//@   requires ctx != nil && pcInv(ctx) && wf(self) && errOK(ctx.deepestError)
 //@   modifies ctx.PeekingLexer, ctx.apply, ctx.deepestError, ctx.deepestErrorDepth, ctx.depth
 //@   ensures pcInv(ctx) && ctx.tokens == old(ctx.tokens) && ctx.elide == old(ctx.elide)
 //@   ensures ctx.rawCursor >= old(ctx.rawCursor) && ctx.cursor >= old(ctx.cursor)
@@ -138,7 +144,7 @@ package participle
 //@   ensures ctx.apply == old(ctx.apply) || fresh(ctx.apply)
 //@   ensures len(ctx.apply) >= len(old(ctx.apply)) && forall(k, 0, len(old(ctx.apply)), ctx.apply[k] == old(ctx.apply[k]))
 //@   ensures forall(k, len(old(ctx.apply)), len(ctx.apply), ctx.apply[k] != nil && ctx.apply[k].strct == parent)
-//@   ensures result1 != nil ==> implements(result1, Error) || uf("user_error", "Bool", result1)
+//@   ensures errOK(result1) && errOK(ctx.deepestError)
 
 // The property's own predicate for "<identifier>" and for a literal "s"[:Type] (C10, C01):
 //@ spec fn refMatch(r *reference, t lexer.Token) bool = t.Type == r.typ
@@ -217,7 +223,7 @@ package participle
 //@   use wfSequence(n) at loop 1
 //@   use seqAcyclic(s, n) at loop 1
 //@   loop 1 invariant ctx.tokens == old(ctx.tokens) && ctx.elide == old(ctx.elide)
-//@   loop 1 invariant pcInv(ctx) && ctx.rawCursor >= old(ctx.rawCursor) && ctx.cursor >= old(ctx.cursor) && (n != nil ==> wf(iface(n)))
+//@   loop 1 invariant pcInv(ctx) && ctx.rawCursor >= old(ctx.rawCursor) && ctx.cursor >= old(ctx.cursor) && (n != nil ==> wf(iface(n))) && errOK(ctx.deepestError)
 //@   loop 1 invariant (ctx.apply == old(ctx.apply) || fresh(ctx.apply)) && len(ctx.apply) >= len(old(ctx.apply))
 //@   loop 1 invariant forall(k, 0, len(old(ctx.apply)), ctx.apply[k] == old(ctx.apply[k]))
 //@   loop 1 invariant forall(k, len(old(ctx.apply)), len(ctx.apply), ctx.apply[k] != nil && ctx.apply[k].strct == parent)
@@ -233,7 +239,7 @@ package participle
 //@   allow-panic 1 "documented grammar-bug panic (an alternative matched without consuming); excluded by C06's premise"
 //@   loop 1 invariant -1 <= rangeindex && rangeindex < len(d.nodes) && pcInv(ctx)
 //@   loop 1 invariant ctx.PeekingLexer == old(ctx.PeekingLexer) && ctx.apply == old(ctx.apply)
-//@   loop 1 invariant firstError == nil || implements(firstError, Error) || uf("user_error", "Bool", firstError)
+//@   loop 1 invariant errOK(firstError) && errOK(ctx.deepestError)
 //@   loop 1 decreases len(d.nodes) - rangeindex
 //@   ensures err == nil && out == nil ==> ctx.PeekingLexer == old(ctx.PeekingLexer) && ctx.apply == old(ctx.apply)
 
@@ -242,7 +248,7 @@ package participle
 //@ func (*group).Parse [C01 C02 C06 C13]
 //@   implements node.Parse
 //@   use wfGroup(g) at entry
-//@   loop 1 invariant 0 <= matches && g.expr != nil && wf(g.expr)
+//@   loop 1 invariant 0 <= matches && g.expr != nil && wf(g.expr) && errOK(ctx.deepestError)
 //@   loop 1 invariant ctx.tokens == old(ctx.tokens) && ctx.elide == old(ctx.elide)
 //@   loop 1 invariant pcInv(ctx) && ctx.rawCursor >= old(ctx.rawCursor) && ctx.cursor >= old(ctx.cursor)
 //@   loop 1 invariant (ctx.apply == old(ctx.apply) || fresh(ctx.apply)) && len(ctx.apply) >= len(old(ctx.apply))
@@ -282,3 +288,28 @@ package participle
 //@   use wfUnion(u) at entry
 //@   loop 1 invariant -1 <= rangeindex && rangeindex < len(vals)
 //@   loop 1 decreases len(vals) - rangeindex
+
+// ---------------------------------------------------------------------------------------------
+// parser.go
+// ---------------------------------------------------------------------------------------------
+
+// parseInto looks the root node up in the parser's type table through reflection. That the table holds a
+// well-formed node for the root type is established by Build and is an unchecked assumption here.
+//@ func (*Parser[G]).parseInto [C06 C01]
+//@   requires ctx != nil && pcInv(ctx) && errOK(ctx.deepestError)
+//@   modifies ctx.PeekingLexer, ctx.apply, ctx.deepestError, ctx.deepestErrorDepth, ctx.depth
+//@   assume call node.Parse#1: arg0 != nil && wf(arg0)
+//@   assume call (reflect.Value).IsNil#1: false == false
+//@   ensures errOK(result) && errOK(ctx.deepestError) && pcInv(ctx)
+//@   ensures result == nil ==> ctx.rawCursor >= old(ctx.rawCursor)
+
+// parseOne: the whole input must be consumed unless trailing input is allowed; the error is the deepest one.
+//@ func (*Parser[G]).parseOne [C06 C01 C15]
+//@   requires ctx != nil && pcInv(ctx) && errOK(ctx.deepestError)
+//@   modifies ctx.PeekingLexer, ctx.apply, ctx.deepestError, ctx.deepestErrorDepth, ctx.depth
+//@   ensures errOK(result) && pcInv(ctx)
+//@   ensures result == nil ==> ctx.allowTrailing || eofAt(&ctx.PeekingLexer, ctx.nextCursor) [C01]
+
+//@ func (*Parser[G]).getElidedTypes [C06 C15]
+//@   loop 1 invariant -1 <= rangeindex && rangeindex < len(p.elide)
+//@   loop 1 decreases len(p.elide) - rangeindex
